@@ -46,6 +46,7 @@ func runC01(c *Ctx) {
 	// a stream whose valid handshake is refused delivers nothing
 	c06ParserDecides(c, p, "R10")
 	parserVerdictAfterSearch(c, p, "R10")
+	freshPerObject(c, p, "R10", "transports/obfs4.obfs4Conn", "readBuffer", "connection")
 	noBackgroundConnWrites(c, p, newConnIO(p), "R10", "transports/obfs4")
 	// "both directions in use at once from one reader and one writer goroutine": the only state the two
 	// goroutines share is the length/delay distributions (the writer samples, the reader re-seeds them)
